@@ -1,5 +1,6 @@
 """C10 — the translator is total and memory-safe on valid modules and on truncated files."""
 import collections
+import zlib
 import os
 
 from .. import f1, f2, gen, wasm, cexec, runner
@@ -83,6 +84,8 @@ def viol(kind_key, wb, opts, cut, tag, tr, ref=None):
     return {'signature': sig,
             'summary': '%s [%s] options=%s cut=%s: %s' % (kind, tag, ' '.join(opts), cut, key),
             'replay': {'kind': 'c10', 'wasm_hex': (wb if cut is None else wb[:cut]).hex() if len(wb) < 200000 else None,
+                       # large (stress) modules are kept compressed: a finding must stay replayable whatever its size
+                       'wasm_zhex': zlib.compress(wb if cut is None else wb[:cut], 9).hex() if len(wb) >= 200000 else None,
                        'tag': tag, 'options': list(opts), 'cut': cut, 'signature': sig,
                        'ref_hex': ref.hex() if ref is not None and len(ref) < 200000 else None,
                        'stderr': tr.err.decode(errors='replace')[-2500:] if isinstance(tr.err, bytes) else ''}}
@@ -218,9 +221,9 @@ def task(wid, seed, params):
 
 
 def replay(rp):
-    if rp.get('wasm_hex') is None:
+    if rp.get('wasm_hex') is None and rp.get('wasm_zhex') is None:
         return False
-    wb = bytes.fromhex(rp['wasm_hex'])
+    wb = bytes.fromhex(rp['wasm_hex']) if rp.get('wasm_hex') is not None else zlib.decompress(bytes.fromhex(rp['wasm_zhex']))
     ref = bytes.fromhex(rp['ref_hex']) if rp.get('ref_hex') else None
     if '-r' in rp['options'] and ref is None:
         return False
